@@ -143,6 +143,29 @@ func main() {
 		}
 	}
 	wg.Wait()
+	// every single byte value (all C0 controls, DEL, every high byte) inserted at, or replacing, every position of
+	// the vectors: byte-level tricks (case folding with |0x20, table lookups) have their own special values
+	byteMut := 0
+	for _, v := range vectors {
+		v := v
+		wg.Add(1)
+		sem <- struct{}{}
+		go func() {
+			defer wg.Done()
+			defer func() { <-sem }()
+			for pos := 0; pos <= len(v); pos++ {
+				for b := 0; b < 256; b++ {
+					checkOne(v[:pos]+string([]byte{byte(b)})+v[pos:], b < 0x21 || b == 0x7f)
+					if pos < len(v) {
+						checkOne(v[:pos]+string([]byte{byte(b)})+v[pos+1:], false)
+					}
+				}
+			}
+		}()
+		byteMut += (len(v) + 1) * 512
+	}
+	wg.Wait()
+	run.Cov["vector_byte_mutations"] = byteMut
 
 	run.Cov["token_alphabet"] = len(tokens)
 	run.Cov["token_max_len"] = tokLen
